@@ -893,6 +893,10 @@ func (v *VM) run() {
 			iterator := v.stack[v.sp-1]
 			v.sp--
 			val := iterator.(Iterator).Value()
+			if val == nil {
+				// e.g. the map entry was deleted during the iteration
+				val = UndefinedValue
+			}
 			v.stack[v.sp] = val
 			v.sp++
 		case parser.OpSuspend:
